@@ -66,3 +66,25 @@ CHECKS["C13"] = {
     "outside": ["memory-access interleavings observable only by the race detector under stress: not encoded; -race is used to replay D1 candidates",
                 "3 goroutines / 2 operations each"],
 }
+
+CHECKS["C05"] = {
+    "runs": [R("./vm", {"fn": r"^ZZ_C05_"})],
+    "expect_asserts": [r"C05\.\+/int,int/value", r"C05\.</int,float/value", r"C05\.int64Value/value", r"C05\.string\+string/value", r"C05\.%/int,int/zero-divisor-is-error"],
+    "bounds": {"numeric payloads": "none: all 2^64 x 2^64 operand pairs per operator and class pair (int64/float64), decided per path by the solver",
+               "strings": "symbolic ASCII strings of length 0..2; numbers in string concatenation from a concrete pool of 10", "repeat count": "-1..3",
+               "tree depth": "single operator (step lemma) plus all depth-2 trees over + - * & | on int64"},
+    "stubs": ["strconv/fmt formatting of concrete numbers: native", "int64Cache load at a symbolic index: closed form of the table computed from its actual contents (arithmetic progression check)"],
+    "assumptions": ["operands are int64, float64 or strings as the statement quantifies; other numeric kinds are outside this check",
+                    "float -> int conversions use the amd64 result for NaN/out-of-range values"],
+    "outside": ["formatting of symbolic numbers", "strings longer than 2 symbolic bytes", "non-ASCII symbolic bytes"],
+}
+
+CHECKS["C06"] = {
+    "runs": [R("./vm", {"fn": r"^ZZ_C06_"})],
+    "expect_asserts": [r"C06\.symmetric/.*", r"C06\.int-float/eq-iff-le-and-ge", r"C06\.string-number/decimal-numeral", r"C06\.pool/int-float-eq-iff-le-and-ge", r"C06\.in-agrees/.*", r"C06\.switch-agrees/.*"],
+    "bounds": {"classes": "12 value classes x 12 (ordered pairs): nil, bool, int64, float64, int32, float32 (pool), uint8, decimal numeral strings (pool of 10), non-numeral strings (pool of 8), symbolic strings <=2, []interface{} <=2, map <=1",
+               "numeric payloads": "unbounded (symbolic 64-bit)", "magnitude pool": "+-10^0..10^22 and the 2^53 cliff as int64/float64/float32 (concrete, for formatting-based code)"},
+    "stubs": ["strconv.ParseInt/ParseFloat/Format*: native on concrete operands; symbolic operands end the path as unsupported (counted)"],
+    "assumptions": ["'1_0' is excluded from the non-numeral pool (ParseFloat reads it as 10; arguable)"],
+    "outside": ["number formatting/parsing of symbolic values", "containers deeper than one nesting"],
+}
